@@ -289,6 +289,46 @@ Fixpoint reads_ok (pos : nat) (reads : list nat) (n : nat) : Prop :=
   | k :: r => (pos <= k)%nat /\ reads_ok k r n
   end.
 
+(* ---------- profile objects in the caller's hands (round 6) ----------
+   A store of profile objects.  [PAdd i j] is obj_i + obj_j (ColumnProfile.__add__ /
+   TableProfile.__add__): it creates a NEW object and leaves both operands as they are;
+   [PCopy i] is copy.copy / copy.deepcopy / a pickle round trip: an equal, independent object;
+   [PRead i] reads object i.  [prun] returns what the reads returned. *)
+Inductive pop : Type := PAdd (i j : nat) | PCopy (i : nat) | PRead (i : nat).
+
+Section Objects.
+Variable P : Type.
+Variable addf : P -> P -> P.
+Variable dflt : P.
+Definition pstep (store : list P) (op : pop) : list P * list P :=
+  match op with
+  | PAdd i j => (store ++ [addf (nth i store dflt) (nth j store dflt)], [])
+  | PCopy i => (store ++ [nth i store dflt], [])
+  | PRead i => (store, [nth i store dflt])
+  end.
+Fixpoint prun (store : list P) (ops : list pop) : list P :=
+  match ops with
+  | [] => []
+  | op :: r => snd (pstep store op) ++ prun (fst (pstep store op)) r
+  end.
+Fixpoint pfinal (store : list P) (ops : list pop) : list P :=
+  match ops with
+  | [] => store
+  | op :: r => pfinal (fst (pstep store op)) r
+  end.
+End Objects.
+Arguments pstep {P}. Arguments prun {P}. Arguments pfinal {P}.
+
+(* ---------- a frame with two columns (round 6) ----------
+   Rows are pairs; the frame's OWN schema names the first and the second field.  collect(name)
+   looks the name up in that schema (column_names.index(name)) and takes that field of every row;
+   the table profile maps a name to the profile of what collect returns for it. *)
+Definition collect2 {X} (names : N * N) (rows : list (X * X)) (nm : N) : option (list X) :=
+  if (nm =? fst names)%N then Some (map fst rows)
+  else if (nm =? snd names)%N then Some (map snd rows) else None.
+Definition tprofile2 {X P} (profile_of : list X -> P) (names : N * N) (rows : list (X * X)) (nm : N) : option P :=
+  option_map profile_of (collect2 names rows nm).
+
 (* ---------- numbers ---------- *)
 (* int(x) of the fixed-point number z / scale: truncation toward zero *)
 Definition trunc_z (scale z : Z) : Z := Z.quot z scale.
@@ -469,10 +509,46 @@ Record obs (V : Type) := mko {
   o_session : list (N * option (profile V N));   (* row counts as N: frames above the batch size *)
   (* the last read, when the frame holds the whole column; None = the harness found it identical,
      field by field, to [o_whole] (the profile of a frame built with all rows at once) *)
-  o_final : option (profile V N)
+  o_final : option (profile V N);
+  (* after profile(a) + profile(b) at the designated cut: the left and the right operand read again, and
+     the later sums (the same operands added again, copies of them added) that the harness did not
+     find identical to the first sum *)
+  o_after : option (profile V N * profile V N * list (profile V N));
+  (* the frame (c, d) holding (column, column reversed) and its mirror named (d, c), profiled one after
+     the other: (mirror?, name 0 = c / 1 = d, observed column profile; None = identical to [o_whole]) *)
+  o_pair : list (bool * N * option (profile V N))
 }.
 Arguments mko {V}. Arguments o_whole {V}. Arguments o_cut {V}. Arguments o_quads {V}. Arguments o_estimate {V}.
-Arguments o_session {V}. Arguments o_final {V}.
+Arguments o_session {V}. Arguments o_final {V}. Arguments o_after {V}. Arguments o_pair {V}.
+
+(* the operands of a sum are still the profiles of their batches after the addition (and after
+   further additions); adding them again, or adding copies of them, gives the same sum *)
+Definition after_check {X V} (ev : V -> V -> bool) (prof : list X -> profile V N)
+           (addf : profile V N -> profile V N -> profile V N) (c : list X) (o : obs V) : bool :=
+  match o_after o, o_cut o with
+  | Some (l, r, sums), Some (k, _) =>
+      let a := prof (firstn k c) in
+      let b := prof (skipn k c) in
+      match prun addf (empty_profile 0 0) [a; b]
+                 [PAdd 0 1; PRead 0; PRead 1; PAdd 0 1; PRead 3; PCopy 0; PCopy 1; PAdd 4 5; PRead 6] with
+      | [a'; b'; s2; s3] =>
+          sum_eqb ev a' l && sum_eqb ev b' r && forallb (fun s => sum_eqb ev s2 s && sum_eqb ev s3 s) sums
+      | _ => false
+      end
+  | Some _, None => false
+  | None, _ => true
+  end.
+
+(* each column profile of the two-column frames is the profile of the column the frame's own schema
+   puts under that name *)
+Definition pair_check {X V} (ev : V -> V -> bool) (frame : list X -> option (profile V N)) (c : list X) (o : obs V) : bool :=
+  forallb (fun e : bool * N * option (profile V N) =>
+             let '(mirror, nm, p) := e in
+             let names := if mirror then (1%N, 0%N) else (0%N, 1%N) in
+             match tprofile2 frame names (combine c (rev c)) nm with
+             | Some (Some w) => sum_eqb ev w (match p with Some q => q | None => o_whole o end)
+             | _ => false
+             end) (o_pair o).
 
 (* profile / append / profile ... on one frame object, replayed in the model: every read before
    the last agrees with the observed one (histogram: empty or not, as for sums - the harness has
@@ -501,7 +577,7 @@ Definition check_common {X V} (ev : V -> V -> bool) (big : bool) (prof : list X 
       end &&
       (if big then true
        else list_eqb quad_eqb (cut_quads prof addf c) (flat_map (fun r => repeat (snd r) (fst r)) (o_quads o))) &&
-      session_check ev big frame c o
+      session_check ev big frame c o && after_check ev prof addf c o && pair_check ev frame c o
   end.
 
 (* what the model's frame returns at each read of the observed session *)
